@@ -61,6 +61,7 @@ def run(t, budget=1.0):
             vals = data.draw(values.level_values(L, max_entries=3, inflate=data.draw(st.booleans())))
             img, size = M.encode_message(L, vals, background=data.draw(st.sampled_from([0, 0xFF, 0x42])))
             cmds = READ_CMDS
+            c = None
             if family == "hostile":
                 fits, sz, ctrl = M.walk_message(L, img)
                 ctrl = [c for c in ctrl if c[0] != "group"]
@@ -82,6 +83,18 @@ def run(t, budget=1.0):
             ns = list(range(0, full + 1)) if full <= 300 else sorted(set([0, 1, full - 1, full] + data.draw(st.lists(st.integers(0, full), min_size=60, max_size=60))))
             cmd = data.draw(st.sampled_from(cmds))
             res.cls("cmd_" + cmd.replace(" ", "_"))
+            if family == "read":
+                # direction 2 for every accessor family: exact fit, valid contents => no handler
+                for c2 in cmds:
+                    for cfg in cfgs:
+                        line = read_line(c2, mi, img.hex() or "-")
+                        resp = pc.call(entry, cfg, line)
+                        res.count()
+                        res.nontriv(common.text_hash(entry.dir, c2, img, "full"))
+                        if outcome(resp) != "OK":
+                            pc.fail("spurious-assertion:%s" % c2.replace(" ", "-") if outcome(resp) == "ASSERT" else "silent-out-of-bounds:%s:exact-fit" % c2.replace(" ", "-"), entry,
+                                    {"cmd": line, "config": cfg, "n": full, "full": full, "expect": "OK", "actual": resp[:300]},
+                                    "[%s] %s on a well-formed, exactly fitting image of message %s: %s" % (cfg, c2, L.name, resp[:200]))
             for n in ns:
                 cfg = cfgs[n % len(cfgs)]
                 hx = img[:n].hex() or "-"
@@ -176,7 +189,7 @@ def run(t, budget=1.0):
                         "[%s] encode script on message %s bound to %d of %d bytes: %s" % (cfg, L.name, n, full, resp[:200]))
         res.cls("cmd_encode")
 
-    pc.run_hypothesis(body, 120 if t == "quick" else 3000)
+    pc.run_hypothesis(body, 200 if t == "quick" else 4000)
     return pc.finish()
 
 
